@@ -13,10 +13,10 @@ import (
 // C03: literal text verbatim; trim markers and comments remove exactly what they say.
 
 type delimCfg struct {
-	Name           string
-	L, R, CL, CR   string
-	customAct      bool
-	customComment  bool
+	Name          string
+	L, R, CL, CR  string
+	customAct     bool
+	customComment bool
 }
 
 var delimCfgs = []delimCfg{
